@@ -280,5 +280,25 @@ PROPS["C11"] = dict(
     assumptions=["gorilla/websocket as client", "the harness event source selects on the operation context"],
 )
 
+PROPS["C16"] = dict(
+    pkg="c16", race=False, level="exploration", prepare="exec_projects",
+    projects_quick=[("core", ["v0"])], projects_thorough=[("core", ["v0", "v1"])],
+    quick=dict(shards=8, timeout=900), thorough=dict(shards=16, timeout=3000),
+    claim="round-trip testing of introspection over rapid-generated schemas (interfaces implementing interfaces, unions, recursive "
+          "inputs, defaults of every literal kind incl. object defaults and control characters, descriptions, @deprecated on fields, "
+          "arguments, input fields, enum values and directive arguments, repeatable directives, two files with extensions): one "
+          "generated server serves each schema through graphql.Config.Schema; the standard introspection query (also fully aliased, "
+          "and per type through __type(name: $n)) is answered, and the type graph rebuilt from the JSON is compared element by element "
+          "with the ast.Schema gqlparser loaded from the SDL (kinds, names, order, descriptions, type references, default values "
+          "re-parsed as GraphQL constants, each element's own deprecation, interfaces of objects and interfaces, possible object "
+          "types, directive locations/arguments/repeatability); with introspection disabled six query shapes hiding __schema/__type "
+          "behind aliases, fragments and variables must yield null plus an error and no schema type name in the data",
+    note="gqlparser's schema loader is the reference for what the SDL means; the federation _service field is covered by C20",
+    technique="round-trip property testing (rapid) with schema generation from a grammar",
+    rule="evaluation = one (schema, query shape, enabled/disabled) case; non-trivial = the schema has a deprecated argument or input field "
+         "and an interface implementing an interface or an object-valued default; distinct by SDL and shape",
+    assumptions=["gqlparser.LoadSchema decides validity and meaning of the generated SDL (invalid ones are dropped and counted)"],
+)
+
 # properties deliberately not claimed (reason); anything else missing from PROPS is "not built yet"
 NOT_CLAIMED = {}
